@@ -4,6 +4,56 @@ import json, os
 ROOT = os.path.dirname(os.path.dirname(os.path.abspath(__file__)))
 
 CHECKS = {
+ "C07": dict(
+  level="exploration", design="6/C07", engine="sse-product",
+  technique="bounded exhaustive enumeration of words over {ND,0,1,2,7,30} x all calibration windows x 4 kernel entry points + accessor, and a deterministic quantile-grid family, against an independent SciPy evaluation of the SPI definition with an interval for the fitted shape",
+  text="All words of length 3..6/7 with every window of >=2 steps, int16/float32/float64 inputs; shapes 0.05..500, scales 0.1..1e4, n<=400 with zeros and ties. Interval oracle: every integer between the rounded ends for alpha*(1+-1e-9) (float32: single-precision log bound).",
+  note="Trusts scipy.special (digamma, gammainc, ndtri) and scipy.optimize.brentq as the reference; |SPI|>7000 left to C08."),
+ "C08": dict(
+  level="exploration", design="6/C08", engine="sse-product",
+  technique="bounded exhaustive enumeration: words with negative / nodata letters (ordering inside each pixel), extremes ladders base*10^k for k=-300..6 over shapes 0.5..1e4, and every placement of every kind of unfittable pixel in a 2x2 cube x dtypes x grouped",
+  text="Non-decreasing indices, equal -> equal, nodata/negative -> nodata, saturation instead of wrap, no exception, neighbours unaffected.",
+  note="The saturation value itself is not pinned by the statement; only order preservation is demanded beyond the int16 range."),
+ "C09": dict(
+  level="exploration", design="6/C09", engine="sse-product",
+  technique="bounded exhaustive enumeration of time axes (subsets of a 9-position lattice) x all begin/end dates on/between/before/after steps, and of set partitions x label spellings for groups; index reference + differential grouped vs per-group ungrouped path",
+  text="Window membership, attrs, ValueError for every invalid window and only those, grouped == per-group ungrouped, spelling invariance, single group == ungrouped, to_linspace / get_calibration_indices directly, 36 dekad groups.",
+  note="Axes of 5 steps (quick) / 3..6 steps (thorough) for windows; 6..7 (9) steps for groups."),
+ "C10": dict(
+  level="model_checking", design="6/C10", engine="sse-trie",
+  technique="explicit-state exploration of the trie of all weak orderings (rank patterns) of 2..7/8 points, exact reference (integer S, rational variance and Sen slope) on every state, S-increment relation on every edge, symmetry relations; 4 kernel entry points + accessor",
+  text="All 52608 (598443) rank patterns; tau, p, slope, flag compared with exact values (float32 1 ulp); x->2x+3, x^3, -x, reversal; all-nodata pixels.",
+  note="Threshold guard |p-0.05|>1e-9 never triggers in scope (min 1.3e-3)."),
+ "C11": dict(
+  level="model_checking", design="6/C11", engine="calendar",
+  technique="complete enumeration of the finite state space: all 3,652,059 days and 359,964 dekads with successor transitions, every clause of the statement evaluated in every state; accessor vs scalar class element-wise",
+  text="Not bounded: the whole calendar 0001..9999 is explored in every run (quick and thorough).",
+  note="Reference = datetime / calendar from the standard library."),
+ "C15": dict(
+  level="model_checking", design="6/C15", engine="sse-trie",
+  technique="explicit-state exploration of the input trie over {ND,a,b,c} (length 3..9/10) with a streaming exact-integer reference (ten running sums), int/nodata vs float/NaN, (y,x,t) vs (t,y,x), affine invariance, accessor numpy/dask; 900-step outage family",
+  text="All 349k (1.4M) words; value, range [-1,1], encodings, layouts, affine maps.",
+  note="Tolerance 2e-6 absolute (float32 outputs)."),
+ "C16": dict(
+  level="exploration", design="6/C16", engine="sse-product",
+  technique="bounded exhaustive enumeration of zone x value assignments for rasters of 1..5/6 pixels x num_zones x dtype, boundary zone sizes 2^24-1, 2^24, 2^24+2, 25M, 1000 zones, all 720 pixel permutations, accessor numpy/dask",
+  text="Exact mean (2 ulp of output dtype) and exact count, NaN/0 for empty zones, zone-nodata pixels excluded, rearrangement invariance.",
+  note="Large zones use integer-valued pixels (exact float64 sums)."),
+ "C18": dict(
+  level="model_checking", design="6/C18", engine="sse-trie",
+  technique="explicit-state exploration of the binary input trie (length 1..16/18) with a run-length automaton and edge relations; long-run family beyond 255 / 65535; non-binary alphabet; croo under all permutations of the stored time order",
+  text="All 131070 binary words, runs up to 1000 (70000), all 720 stored orders for words up to length 6.",
+  note="croo is only claimed for binary series (the property's quantifier)."),
+ "C19": dict(
+  level="model_checking", design="6/C19", engine="sse-trie",
+  technique="exhaustive exploration of the generator: axis length 1..8/12 x n x begin x end x lookup method x reducer x dim kind, every next() compared with the reference window list; off-axis labels must raise ValueError",
+  text="Every configuration inside the bound, time and numeric dims, NaN data.",
+  note="Lookup methods follow pandas get_indexer semantics; nearest ties accept either neighbour."),
+ "C20": dict(
+  level="exploration", design="6/C20", engine="sse-product",
+  technique="bounded exhaustive enumeration of templates (n obs 2..4/5, gaps 0..3, head/tail) x all contiguous labelings x value words; reference curve at lambda=1e-5 (refined float, cross-checked with rationals), period means, tie band; inputs unmodified; accessor; long regular families",
+  text="158 templates x 2^(L-1) labelings x value words; lines in day number give exact period means.",
+  note="Either neighbour accepted within 1e-6 of a rounding tie."),
  "C01": dict(
   level="exploration", design="6/C01", engine="sse-product",
   technique="bounded exhaustive enumeration (n 4..9/12 x all 0/1 weight patterns x lambda grid x impulse basis): the real ws2d source executed on Fractions vs an independent dense rational solve; compiled ws2d vs the exact solution",
